@@ -79,6 +79,7 @@ class Sidecars:
         self.assumed: Dict[str, ContractAst] = {}
         self.loops: Dict[Tuple[str, int], LoopAst] = {}
         self.attr_sorts: Dict[str, str] = {}
+        self.specs: Dict[str, ast.FunctionDef] = {}
         self.sources: Dict[str, str] = {}
         for fn in sorted(os.listdir(self.dir)):
             if fn.endswith(".py") and not fn.startswith("_"):
@@ -101,6 +102,8 @@ class Sidecars:
                     if isinstance(d, ast.Call) and isinstance(d.func, ast.Name) and d.func.id in ("contract", "assumed"):
                         self._contract(node, d, path)
             elif isinstance(node, ast.FunctionDef):
+                if any(isinstance(d, ast.Name) and d.id == "spec" for d in node.decorator_list):
+                    self.specs[node.name] = node
                 for d in node.decorator_list:
                     if isinstance(d, ast.Call) and isinstance(d.func, ast.Name) and d.func.id == "loop":
                         key = self._const(d.args[0])
